@@ -387,9 +387,9 @@ theorem moduleList_congr (mt : Str → Str → Bool) (base : Str) (o : ScanOptio
   split
   · exact hm
   · simp only
-    have hall : SM (dedup (ms ++ List.flatMap (fun i => if isInfix base i.importee = true then [] else i.importee :: i.importeeParents)
+    have hall : SM (dedup (ms ++ List.flatMap (fun i => i.importee :: i.importeeParents)
           (List.filter (fun i => !isInternal i.importee pre) is)))
-        (dedup (ms' ++ List.flatMap (fun i => if isInfix base i.importee = true then [] else i.importee :: i.importeeParents)
+        (dedup (ms' ++ List.flatMap (fun i => i.importee :: i.importeeParents)
           (List.filter (fun i => !isInternal i.importee pre) is'))) :=
       SM.dedup (SM.append hm (SM.flatMap (SM.filter hi _) _))
     split
@@ -405,7 +405,7 @@ theorem moduleList_sup (mt : Str → Str → Bool) (base : Str) (o : ScanOptions
   split
   · exact hm
   · simp only
-    have h1 : m ∈ dedup (ms ++ List.flatMap (fun i => if isInfix base i.importee = true then [] else i.importee :: i.importeeParents)
+    have h1 : m ∈ dedup (ms ++ List.flatMap (fun i => i.importee :: i.importeeParents)
           (List.filter (fun i => !isInternal i.importee pre) is)) :=
       (Pta.mem_dedup _ _).2 (List.mem_append_left _ hm)
     split
